@@ -81,6 +81,8 @@ def op_coq(o):
         return f"(PAtHost {HOSTID[o[1]]}%nat)"
     if k == "cmp":
         return f"(PCmp {coq.lst(s2l, o[1], '(list N)')})"
+    if k == "eq_host":
+        return f"(PEqHost {HOSTID[o[1]]}%nat {coq.lst(s2l, o[2], '(list N)')})"
     raise ValueError(o)
 
 
@@ -180,6 +182,12 @@ def run_ops(case, kind):
                     if HOSTID[o[1]] != 0:
                         raise tbot.error.WrongHostError(None, None)
                     r = [0, str(p)]
+            elif k == "eq_host":
+                if tb:
+                    q = linux.Path(hs[o[1]], *o[2])
+                    r = [0, [p == q, hash(p) == hash(q) or p != q]]
+                else:
+                    r = [0, [HOSTID[o[1]] == 0 and p == pathlib.PurePosixPath(*o[2]), True]]
             elif k == "cmp":
                 q = linux.Path(hs[0], *o[1]) if tb else pathlib.PurePosixPath(*o[1])
                 r = [0, [p == q, p < q, q < p]]
@@ -230,8 +238,10 @@ class PathSuite(Suite):
             return [rng.choice(["relative_to", "is_relative_to"]), [self._rand_arg(rng) for _ in range(rng.randint(1, 2))]]
         if x < 0.87:
             return ["parents_get", rng.choice([0, 1, 2, -1, -2, 5, -7])]
-        if x < 0.93:
+        if x < 0.90:
             return ["at_host", rng.choice([0, 1, 2])]
+        if x < 0.94:
+            return ["eq_host", rng.choice([0, 1, 2]), [rng.choice(SEGS) for _ in range(rng.randint(0, 2))]]
         return ["cmp", [rng.choice(SEGS) for _ in range(rng.randint(0, 2))]]
 
     def gen(self, tier, rng):
@@ -252,6 +262,7 @@ class PathSuite(Suite):
         # host combinations at every entry point
         for hidx in (0, 1, 2):
             for x in SEGS[:8]:
+                yield {"init": [["s", x]], "ops": [["eq_host", hidx, [x]], ["eq_host", hidx, [x, "n"]]]}
                 parg = ["p", hidx, [x]]
                 yield {"init": [["s", "/base"], parg], "ops": [["parent"]]}
                 yield {"init": [["s", "/base/a"]], "ops": [["join", [parg]], ["join", [["s", "t"], parg]]]}
@@ -300,6 +311,11 @@ class EscapeSuite(Suite):
                     for kind in ("escape", "RedirStdout", "RedirStderr", "RedirBoth", "AppendStdout", "AppendStderr", "AppendBoth",
                                  "RedirStdin", "Background-out", "Background-err"):
                         yield {"path_host": hidx, "mach": mach, "seg": x, "kind": kind}
+                    # Background with BOTH streams: the second path (same or different spelling) lives on host `hidx`,
+                    # the first one on the machine itself
+                    for seg2 in (x, x + "2"):
+                        yield {"path_host": hidx, "mach": mach, "seg": x, "seg2": seg2, "kind": "Background-both-stderr-other"}
+                        yield {"path_host": hidx, "mach": mach, "seg": x, "seg2": seg2, "kind": "Background-both-stdout-other"}
 
     def run(self, case):
         import shlex
@@ -310,6 +326,12 @@ class EscapeSuite(Suite):
         try:
             if k == "escape":
                 r = [0, m.escape(p)]
+            elif k == "Background-both-stderr-other":
+                tok = linux.Background(stdout=linux.Path(m, case["seg"]), stderr=linux.Path(hs[case["path_host"]], case["seg2"]))
+                r = [0, m.escape(tok)]
+            elif k == "Background-both-stdout-other":
+                tok = linux.Background(stdout=linux.Path(hs[case["path_host"]], case["seg2"]), stderr=linux.Path(m, case["seg"]))
+                r = [0, m.escape(tok)]
             elif k.startswith("Background"):
                 tok = linux.Background(stdout=p) if k.endswith("out") else linux.Background(stderr=p)
                 r = [0, m.escape(tok)]
@@ -357,6 +379,8 @@ class PathlibSuite(Suite):
         for _ in range(8000 if tier == "thorough" else 1500):
             init = [["s", rng.choice(SEGS)] for _ in range(rng.randint(0, 3))]
             ops = [o for o in (ps._rand_op(rng) for _ in range(rng.randint(1, 3)))]
+            if any(o[0] == "with_suffix" for o in ops) and "..a" in repr(init) + repr(ops):
+                continue    # the CPython corner recorded as known finding (path_model follows tbot's re-normalisation there)
             yield {"init": init, "ops": ops}
 
     def klass(self, case, obs):
